@@ -23,7 +23,7 @@ class _Ctx:
 def _tasks(rng, b, nt, want_optional):
     ts, kinds = [], []
     for i in range(nt):
-        k = rng.choice(("F1", "F2", "F1", "V", "Z", "V0"))
+        k = rng.choice(("F1", "F2", "F1", "V", "Z", "V0", "VA", "F3"))
         opt = rng.random() < (0.5 if want_optional else 0.2)
         kw = dict(optional=opt)
         if rng.random() < 0.15:
@@ -41,6 +41,8 @@ def _tasks(rng, b, nt, want_optional):
             ts.append(b.task(nm, "Z", **kw))
         elif k == "V":
             ts.append(b.task(nm, "V", min=1, max=rng.choice((2, 3)), **kw))
+        elif k == "VA":
+            ts.append(b.task(nm, "V", min=0, allowed=rng.choice(([1, 3], [1, 2], [2])), **kw))
         else:
             ts.append(b.task(nm, "V", min=0, max=2, **kw))
         kinds.append(k)
@@ -59,8 +61,13 @@ def _resources(rng, b, ts, c):
     for i, t in enumerate(ts):
         r = rng.random()
         if i == 0 or r < 0.45:
-            b.require(t, worker=c.w1)
+            tk = b.p["tasks"][t - 1]
+            shift = rng.random() < 0.2 and tk["kind"] == "F" and tk["dur"] >= 2
+            b.require(t, worker=c.w1, delay_in=1 if shift and rng.random() < 0.5 else 0,
+                      early_out=1 if shift and tk["dur"] >= 3 else 0)
             c.on_w1 += 1
+            if rng.random() < 0.12 and tk["kind"] != "Z":
+                b.require(t, worker=c.w2, dynamic=True)    # a helper that may join late and leave early
         elif r < 0.65:
             # one SelectWorkers per task (what a shared instance means for two tasks is not documented)
             c.sel = b.select(f"S{i + 1}", [c.w1, c.w2], n=1, kind=rng.choice(("exact", "exact", "min")))
@@ -327,8 +334,15 @@ def one(rng, focus):
     for _ in range(rng.choice((1, 2, 2))):
         add(rng.choice(("task", "task", "resource", "resource", "optional", "logic", "buffer")))
     if focus == "indicator":
-        for _ in range(rng.choice((2, 3))):
-            _indicator(rng, b, ts, c)
+        made = [i for i in (_indicator(rng, b, ts, c) for _ in range(rng.choice((2, 3)))) if i]
+        if made and rng.random() < 0.4:
+            i = rng.choice(made)
+            if b.p["inds"][i - 1]["cls"] not in ("IndicatorResourceUtilization", "IndicatorResourceCost"):   # (rounded values)
+                if rng.random() < 0.5:
+                    b.con("IndicatorTarget", ind=i, value=rng.choice((0, 1, 2)))
+                else:
+                    lo = rng.choice((0, 1))
+                    b.con("IndicatorBounds", ind=i, lower=[lo], upper=rng.choice(([], [lo + 1], [lo + 2])))
     if focus == "objective":
         _objective(rng, b, ts, c, H)
     return b.done()
